@@ -38,10 +38,18 @@ type Keys struct {
 	shareContent map[string][]byte
 }
 
-func NewKeys(seed uint64, n int) *Keys {
+func NewKeys(seed uint64, n int) *Keys { return NewKeysShaped(seed, n, 0) }
+
+func NewKeysShaped(seed uint64, n int, shape int) *Keys {
 	k := &Keys{index: map[string]int{}, shareContent: map[string][]byte{}}
 	for i := 0; i < n; i++ {
 		id := primitives.MemberId(fmt.Sprintf("m%02d", i))
+		switch shape {
+		case 1:
+			id = primitives.MemberId(fmt.Sprintf("node%02d-a1b2c3d4e5f6a7", i)) // 20 bytes, first 4 in common
+		case 2:
+			id = primitives.MemberId(fmt.Sprintf("member-%c", 'A'+i)) // differ in the last byte only
+		}
 		k.ids = append(k.ids, id)
 		s := sha256.Sum256([]byte(fmt.Sprintf("secret|%d|%d", seed, i)))
 		k.secrets = append(k.secrets, s[:])
@@ -223,6 +231,7 @@ type Gate struct {
 	sawDone bool
 	started uint64 // event seq
 	late    bool   // released after ctx was cancelled, with a result
+	role    string // yield gates: role of the parked goroutine
 }
 
 // enter is called from library goroutines inside SPI fakes.
@@ -234,7 +243,10 @@ func (n *Node) gateEnter(ctx context.Context, kind string, height uint64) GateVe
 		n.spiStep, n.spiCalls = w.step, 0
 	}
 	n.spiCalls++
-	w.noteGoroutine(n, "worker")
+	if n.workerNotedEpoch != n.epoch && w.ys.enabled {
+		n.workerNotedEpoch = n.epoch // the worker goroutine of this instance: noted once (a goroutine id is not free)
+		w.noteGoroutine(n, "worker")
+	}
 	if n.spiCalls > 20000 {
 		if ctx.Err() != nil {
 			w.violate("C16", "busy-loop-after-cancel", "n%d calls %s in a tight loop with a cancelled context (more than 20000 calls without ever blocking)", n.idx, kind)
@@ -675,7 +687,7 @@ type SimLogger struct{ n *Node }
 func (l *SimLogger) Debug(format string, args ...interface{}) { l.n.logLine(format) }
 func (l *SimLogger) Info(format string, args ...interface{})  { l.n.logLine(format) }
 func (l *SimLogger) Error(format string, args ...interface{}) { l.n.logLine(format) }
-func (l *SimLogger) ConsensusTrace(format string, fields ...*log.Field) {}
+func (l *SimLogger) ConsensusTrace(format string, fields ...*log.Field) { l.n.logLine("TRACE " + format) }
 
 func (n *Node) logLine(line string) {
 	if n.logYieldIn <= 0 || n.w.recovering || !n.alive {
@@ -685,6 +697,14 @@ func (n *Node) logLine(line string) {
 	// harness goroutine itself and other nodes' commit callbacks)
 	if containsStr(line, "MAINLOOP") || containsStr(line, "UpdateState() ") || containsStr(line, "HandleConsensusRawMessage()") || containsStr(line, "MainLoop.Run()") || containsStr(line, "ValidateBlockConsensus") {
 		return
+	}
+	if n.logYieldTrace {
+		if !containsStr(line, "TRACE ") {
+			return
+		}
+		n.logYieldTrace = false
+		n.logYieldIn = 1
+		n.w.probe("log-yield-at-trace-record")
 	}
 	n.logYieldIn--
 	if n.logYieldIn > 0 {
